@@ -1,6 +1,6 @@
 #!/bin/bash
 # devrun.sh PROP COUNT [SEED] : run a batch on the dev scratch build with 8 workers
-S=/var/tmp/sg; cd $S; rm -f out*.jsonl race* log*.txt prog*; rm -rf cases; mkdir -p cases
+S=${S:-/var/tmp/sg}; cd $S; rm -f out*.jsonl race* log*.txt prog*; rm -rf cases; mkdir -p cases
 P=$1; N=${2:-100}; SEED=${3:-1}; TIER=${TIER:-quick}
 for w in 0 1 2 3 4 5 6 7; do GORACE="log_path=$S/race$w suppress_equal_addresses=0 suppress_equal_stacks=0" SIM_MODE=gen SIM_PROP=$P SIM_TIER=$TIER SIM_BASE_SEED=$SEED SIM_FROM=$w SIM_STRIDE=8 SIM_COUNT=$((N/8)) SIM_OUT=$S/out$w.jsonl SIM_PROGRESS=$S/prog$w SIM_CASEDIR=$S/cases timeout ${DEVTIMEOUT:-300} ./harness.test -test.run '^TestSim$' -test.timeout 0 > log$w.txt 2>&1 & done; wait
 cat out?.jsonl > out.jsonl; python3 /verif/bin/summ.py out.jsonl
